@@ -441,7 +441,11 @@ def map_method(ctx, interp, ref, o, name, args, kwargs, node):
     if name == 'clear':
         ks = f['dom'].sort().domain()
         f['dom'] = z3.K(ks, z3.BoolVal(False))
+        if 'size' in f:
+            f['size'] = z3.IntVal(0)
         return NONE
+    if name in ('update', 'pop') and 'size' in f:
+        raise Unsupported('map.%s on a map with ghost cardinality' % name, node)
     if name == 'update':
         other = args[0]
         if isinstance(other, VRef) and ctx.obj(other).kind == 'map':
@@ -598,6 +602,9 @@ def set_item(ctx, recv, key, v, node):
             if k is None:
                 raise Unsupported('map key of wrong kind %r' % (key,), node)
             t = map_val_in(ctx, o, v, node)
+            if 'size' in o.f:
+                # ghost cardinality (len of the map), kept by every update
+                o.f['size'] = z3.simplify(o.f['size'] + z3.If(z3.Select(o.f['dom'], k), 0, 1))
             o.f['dom'] = z3.Store(o.f['dom'], k, z3.BoolVal(True))
             o.f['val'] = z3.Store(o.f['val'], k, t)
             ctx.event('map-set', recv, k, t)
@@ -630,6 +637,8 @@ def del_item(ctx, recv, key, node):
             if i == 1:
                 raise RaiseSig(VExc('builtins:KeyError', [key]))
             o.f['dom'] = z3.Store(o.f['dom'], k, z3.BoolVal(False))
+            if 'size' in o.f:
+                o.f['size'] = z3.simplify(o.f['size'] - 1)
             return
         h = KIND_DELITEM.get(o.kind)
         if h:
@@ -705,6 +714,12 @@ def contains(ctx, container, item, node):
         if o.kind == 'list' and 'items' in o.meta:
             parts = [as_z3_bool(values_equal(ctx, x, item, node)) for x in o.meta['items']]
             return z3.Or(parts) if parts else False
+        if o.kind == 'slist' and 'bag' in o.f:
+            try:
+                t = slist_elem_in(ctx, o, item, node)
+            except Unsupported:
+                return False
+            return z3.Select(o.f['bag'], t) > 0
         h = KIND_CONTAINS.get(o.kind)
         if h:
             return h(ctx, container, o, item, node)
@@ -1227,9 +1242,62 @@ def slist_method(ctx, interp, ref, o, name, args, kwargs, node):
         t = slist_elem_in(ctx, o, args[0], node)
         o.f['arr'] = z3.Store(o.f['arr'], o.f['len'], t)
         o.f['len'] = z3.simplify(o.f['len'] + 1)
+        if 'bag' in o.f:
+            o.f['bag'] = z3.Store(o.f['bag'], t, z3.Select(o.f['bag'], t) + 1)
+        if 'where' in o.f:
+            # ghost: element -> an index at which it was appended
+            o.f['where'] = z3.Store(o.f['where'], t, z3.simplify(o.f['len'] - 1))
         ctx.event('list-append', ref, args[0])
         return NONE
+    if name == 'pop' and not args and 'bag' in o.f and 'where' not in o.f:
+        nonempty = o.f['len'] > 0
+        i = ctx.choose([nonempty, z3.Not(nonempty)], 'slist-pop')
+        if i == 1:
+            raise RaiseSig(VExc('builtins:IndexError'))
+        t = z3.Select(o.f['arr'], z3.simplify(o.f['len'] - 1))
+        # the bag is the multiset of the elements: the popped one occurs in it
+        ctx.assume(z3.Select(o.f['bag'], t) >= 1)
+        o.f['bag'] = z3.Store(o.f['bag'], t, z3.Select(o.f['bag'], t) - 1)
+        o.f['len'] = z3.simplify(o.f['len'] - 1)
+        return slist_elem_out(ctx, o, t)
     raise Unsupported('symbolic list method %s' % name, node)
+
+
+def slist_elem_out(ctx, o, t):
+    ek = o.meta['elemkind']
+    if ek.startswith('bytes'):
+        n = int(ek[5:])
+        ctx.assume(z3.And(t >= 0, t < 256 ** n))
+        return num_to_bytes(ctx, t, n, 'le')
+    if ek == 'int':
+        return VInt(t)
+    return VOpaque(t, 'le')
+
+
+def slist_copy(ctx, o):
+    return ctx.new_obj('slist', None, dict(o.f), dict(o.meta))
+
+
+class SlistCursor:
+    """iteration over a symbolic list (the list must not change while it is iterated: the cursor
+    reads the array and length as they were at the start)"""
+
+    def __init__(self, ctx, o, what, ref):
+        self.o = o
+        self.arr0, self.len0 = o.f['arr'], o.f['len']
+        self.idx = z3.IntVal(0)
+
+    def havoc(self, ctx):
+        self.idx = z3.Int(fresh_name('it_idx'))
+        ctx.assume(z3.And(self.idx >= 0, self.idx <= self.len0))
+
+    def has_more(self, ctx):
+        return self.idx < self.len0
+
+    def next(self, ctx):
+        t = z3.Select(self.arr0, self.idx)
+        self.idx = z3.simplify(self.idx + 1)
+        return slist_elem_out(ctx, self.o, t)
 
 
 def slist_elem_in(ctx, o, v, node):
@@ -1245,7 +1313,9 @@ def slist_elem_in(ctx, o, v, node):
     raise Unsupported('list element kind %s for %r' % (ek, v), node)
 
 
-def new_slist(ctx, elemkind, name='l', empty=False):
+def new_slist(ctx, elemkind, name='l', empty=False, bag=False):
+    """bag=True adds the ghost multiset view f['bag'] (element -> number of occurrences), kept by
+    append/pop; `x in l` is then bag[x] > 0"""
     s = Obj if elemkind == 'opaque' else I
     arr = z3.Array(fresh_name(name + '_arr'), I, s)
     if empty:
@@ -1253,7 +1323,13 @@ def new_slist(ctx, elemkind, name='l', empty=False):
     else:
         ln = z3.Int(fresh_name(name + '_len'))
         ctx.assume(ln >= 0)
-    return ctx.new_obj('slist', None, {'arr': arr, 'len': ln}, {'elemkind': elemkind, 'name': name})
+    f = {'arr': arr, 'len': ln}
+    if bag:
+        f['bag'] = z3.K(s, z3.IntVal(0)) if empty else z3.Array(fresh_name(name + '_bag'), s, I)
+    return ctx.new_obj('slist', None, f, {'elemkind': elemkind, 'name': name})
+
+
+KIND_ITER['slist'] = lambda ctx, o, what, ref: SlistCursor(ctx, o, what, ref)
 
 
 def call_method(ctx, interp, recv, name, args, kwargs, node, fr):
@@ -1486,6 +1562,8 @@ def p_list(ctx, interp, args, kwargs, node):
     if not args:
         return ctx.new_obj('list', meta={'items': []})
     conc = concrete_iter(ctx, args[0], node)
+    if conc is None and isinstance(args[0], VRef) and ctx.obj(args[0]).kind == 'slist':
+        return slist_copy(ctx, ctx.obj(args[0]))
     if conc is None:
         h = ctx.hooks.get('list_of')
         if h:
